@@ -1425,8 +1425,12 @@ class Arm(Robot):
         """
         curpos = self._end_effector_pos_global.copy()
         curth = self._theta.copy()
+        old_base_inv = self._base_pos_global.inv()
+        current_home_local = old_base_inv @ self._end_effector_home
+        original_home_local = old_base_inv @ self._original_end_effector_home
         self.initialize(new_base_pos_global, self.original_screw_list.copy(),
-            self._end_effector_home_local, self.original_joint_poses_home)
+            current_home_local, self.original_joint_poses_home)
+        self._original_end_effector_home = new_base_pos_global @ original_home_local
         if stationary == False:
             self.FK(self._theta)
         else:
